@@ -36,6 +36,8 @@ type MPlan struct {
 	Initial     []int   `json:"initial,omitempty"`
 	Items       []MItem `json:"items"`
 	OptimizeOff bool    `json:"optimize_off,omitempty"`
+	OneLine     bool    `json:"one_line,omitempty"` // script driver: the whole body on one source line (nested loops share a line)
+	Literal     bool    `json:"literal,omitempty"`  // the initial pairs are given to the constructor / a map literal with computed keys (repeats allowed: the last wins, as in Go)
 }
 
 type mapiter struct{}
@@ -61,7 +63,7 @@ func (mapiter) Describe() core.EngineInfo {
 		Real:       []string{"goatlang stringMap/numericMap (Set/Get/Delete/Len/Range, key-list compaction), NewMap, codes SET/GET/GETOK/DELETE/LEN/RANGE/ITER and fused FASTGET/FASTSET through the compiler and VM"},
 		Stubs:      []string{"Go's randomised map iteration inside the key-list compaction -> seeded permutation (hook verifOrderStrings/verifOrderFloats)"},
 		Assumes:    []string{"no order is required of a range", "NaN keys excluded (as the property says)", "+0 and -0 are one key (as in Go)"},
-		ProbesWant: []string{"compactions", "cursor_across_compaction", "reinsert", "delete_ahead_of_cursor", "delete_behind_cursor", "delete_current", "insert_during_loop", "nested_cursors", "driver_host", "driver_script", "maps_keys", "exhausted", "abandoned"},
+		ProbesWant: []string{"compactions", "cursor_across_compaction", "reinsert", "delete_ahead_of_cursor", "delete_behind_cursor", "delete_current", "insert_during_loop", "nested_cursors", "driver_host", "driver_script", "maps_keys", "one_line_script", "literal_with_repeated_key", "exhausted", "abandoned"},
 	}
 }
 
@@ -137,6 +139,8 @@ func (e mapiter) genPlan(r *core.PRNG) *MPlan {
 	if p.Driver == "host" && p.ElemType == "struct" {
 		p.ElemType = "slice"
 	}
+	p.OneLine = p.Driver == "script" && r.Chance(1, 3)
+	p.Literal = r.Chance(1, 3)
 	g := &mGen{r: r, u: p.Universe}
 	ni := r.Intn(p.Universe + 1)
 	for i := 0; i < ni; i++ {
@@ -669,12 +673,33 @@ func (p *MPlan) render() string {
 	_, _, ks, es := p.types()
 	b.WriteString("package main\nimport \"host\"\nimport \"golang.org/x/exp/maps\"\ntype T struct { A int }\nvar negZero = host.NegZero()\n")
 	fmt.Fprintf(&b, "var m = map[%s]%s{}\n", ks, es)
-	b.WriteString("func run() {\n")
-	for _, k := range p.Initial {
-		fmt.Fprintf(&b, "\tm[%s] = %s; host.Init(%d)\n", p.keyLit(k), p.elemLit(1000+k), k)
+	var body strings.Builder
+	if p.Literal && len(p.Initial) > 0 {
+		// computed keys (variables), so that repeated keys are legal Go: the last pair wins
+		var pairs []string
+		for i, k := range p.Initial {
+			fmt.Fprintf(&body, "\tkv%d := %s\n", i, p.keyLit(k))
+			pairs = append(pairs, fmt.Sprintf("kv%d: %s", i, p.elemLit(2000+i)))
+		}
+		fmt.Fprintf(&body, "\tm = map[%s]%s{%s}\n", ks, es, strings.Join(pairs, ", "))
+		for i, k := range p.Initial {
+			fmt.Fprintf(&body, "\thost.InitLit(%d, %d)\n", k, 2000+i)
+		}
+	} else {
+		for _, k := range p.Initial {
+			fmt.Fprintf(&body, "\tm[%s] = %s; host.Init(%d)\n", p.keyLit(k), p.elemLit(1000+k), k)
+		}
 	}
-	p.renderItems(&b, p.Items, "\t", 0)
-	b.WriteString("}\n")
+	p.renderItems(&body, p.Items, "\t", 0)
+	text := body.String()
+	if p.OneLine {
+		lines := strings.Split(strings.TrimSpace(text), "\n")
+		for i := range lines {
+			lines[i] = strings.TrimSpace(lines[i])
+		}
+		text = "\t" + strings.Join(lines, "; ") + "\n"
+	}
+	b.WriteString("func run() {\n" + text + "}\n")
 	return b.String()
 }
 
@@ -688,6 +713,7 @@ func (run *mRun) index(items []MItem) {
 func (run *mRun) natives(vm *goatlang.VM) {
 	vm.Set("host.NegZero", goatlang.NewFunc(0, 1, func(v *goatlang.VM) goatlang.Value { return goatlang.Float64(math.Copysign(0, -1)) }))
 	vm.Set("host.Init", goatlang.NewFunc(1, 0, func(v *goatlang.VM, a []goatlang.Value) { run.onSet(a[0].Int(), 1000+a[0].Int()) }))
+	vm.Set("host.InitLit", goatlang.NewFunc(2, 0, func(v *goatlang.VM, a []goatlang.Value) { run.onSet(a[0].Int(), a[1].Int()) }))
 	vm.Set("host.Op", goatlang.NewFunc(1, 0, func(v *goatlang.VM, a []goatlang.Value) {
 		it := run.items[a[0].Int()]
 		if it == nil {
@@ -757,6 +783,19 @@ func (mapiter) Execute(plan any, keep bool) *core.Result {
 	run.h = core.NewHost(p.Seed, disk, hist, run.natives)
 	run.h.Budget = core.MaxBudget
 	run.h.C.Inc("driver_" + p.Driver)
+	if p.OneLine {
+		run.h.C.Inc("one_line_script")
+	}
+	if p.Literal {
+		seenK := map[int]bool{}
+		for _, k := range p.Initial {
+			if seenK[p.canon(k)] {
+				run.h.C.Inc("literal_with_repeated_key")
+				break
+			}
+			seenK[p.canon(k)] = true
+		}
+	}
 	if p.Driver == "script" {
 		if err := run.h.Load("main"); err != nil {
 			res.Fail("HARNESS", "generator", "script", "the generated script does not load: %v\n%s", err, src)
@@ -766,8 +805,17 @@ func (mapiter) Execute(plan any, keep bool) *core.Result {
 	} else {
 		kt, et, _, _ := p.types()
 		var init []goatlang.Value
+		if p.Literal {
+			for i, k := range p.Initial {
+				init = append(init, p.keyValue(k), p.elemValue(2000+i))
+			}
+		}
 		m := goatlang.NewMap(kt, et, init)
-		for _, k := range p.Initial {
+		for i, k := range p.Initial {
+			if p.Literal {
+				run.onSet(k, 2000+i)
+				continue
+			}
 			m.Set(p.keyValue(k), p.elemValue(1000+k))
 			run.onSet(k, 1000+k)
 		}
